@@ -757,6 +757,9 @@ func passB(t *testing.T, cfg Config, table map[string]Result, seconds int) {
 				memo[src] = w
 			}
 			got := cfg.runInterp(p)
+			if strings.HasPrefix(got.Err, "not run:") {
+				return // process poisoned by a non-interruptible hang: not a disagreement
+			}
 			if !got.Equal(w) {
 				if cfg.Known != nil {
 					if id := cfg.Known(p, got, w); id != "" && r.Known(id) {
